@@ -5,7 +5,7 @@ from typing import Dict, Optional, List, Tuple
 
 from sympy import Eq, sympify, expand
 from sympy import symbols, simplify, Expr, Add, Mul, Pow, Symbol, Float
-from sympy.core.numbers import Zero, NegativeOne, One, Integer
+from sympy.core.numbers import Zero, NegativeOne, One, Integer, Rational, Half
 from sympy.logic.boolalg import BooleanTrue
 from sympy.parsing.sympy_parser import parse_expr
 
@@ -14,6 +14,8 @@ SYMPY_OP_TO_PDDL_OP = {
     Mul: "*",
     Pow: "^",
     Float: "",
+    Rational: "",
+    Half: "",
     Integer: "",
     Symbol: "",
     Zero: "0",
@@ -43,6 +45,10 @@ def extract_atom(
     :param should_remove_trailing_zeros: whether to remove trailing zeros or not.
     :return: the PDDL expression.
     """
+    if expression.func in (Rational, Half):
+        # exact fractions (e.g., the result of dividing by an integer) are printed like floats.
+        expression = Float(expression)
+
     if expression.func == Float:
         formatted_expression = (
             format(expression, f".{decimal_digits}f")
